@@ -2,6 +2,7 @@
 
 mod c02;
 mod c09;
+mod c12;
 mod flow;
 mod kit;
 
@@ -71,6 +72,12 @@ fn main() {
             run_dfs(&mut rep, "udp-capacity", 0, wall, c09::capacity_scenario);
             rep.finish();
         }
+        "C12" => {
+            let mut rep = Report::new("C12", tier, "model_checking", "sim");
+            rep.rule = "stateless enumeration: listener bind kind (wildcard / localhost) x three connectors (two remote, one on the listener's own host through its address or 127.0.0.1) x connector start / cancel rounds x round at which accepting starts x listener drop (+ re-bind) x every delivery order of the SYNs held on the link x extra connects to a closed port and an unknown address; nonce pairing, mirrored addresses, accept order = arrival order, refusal instead of hanging, stream counts back to zero".into();
+            run_dfs(&mut rep, "connect-accept", 0, wall, move |ch| c12::scenario(ch, thorough));
+            rep.finish();
+        }
         other => vx_core::machinery_error(&format!("vx-sim does not serve {other}")),
     }
 }
@@ -88,6 +95,7 @@ fn replay(path: &str) {
         "C08" => flow::c08_scenario(&mut ch, thorough),
         "C03" => flow::c03_scenario(&mut ch, thorough),
         "C14" => flow::c14_scenario(&mut ch, thorough),
+        "C12" => c12::scenario(&mut ch, thorough),
         "C09" => {
             if v["scenario"].as_str().map(|s| s.starts_with("c09")).unwrap_or(false) {
                 c09::scenario(&mut ch, thorough)
